@@ -344,6 +344,7 @@ func codeFenceLength(source []byte, block *commonmark.Block) int {
 						minFence = state
 					}
 					state = -1
+					indent = 0
 				case fence:
 					if state < 0 {
 						state = 1
@@ -359,6 +360,7 @@ func codeFenceLength(source []byte, block *commonmark.Block) int {
 				minFence = state
 			}
 			state = -1
+			indent = 0
 		case commonmark.IndentKind:
 			if state == -1 {
 				indent += inl.IndentWidth()
